@@ -149,7 +149,7 @@ def run(ctx):
     chk = ("fun c => match c with (n, perm, map1, map2, rank) => let sfx := skipn RR perm in "
            "nat_list_eqb (chunk_map1 n sfx) map1 && nat_list_eqb (chunk_map2 n map1) map2 && (prefix_to_rank perm map2 =? rank)%nat "
            "&& nat_list_eqb (rank_to_prefix rank map1) (firstn RR perm) end")
-    bad = ctx.coq_failing("Base Perm Bitmask", "", "nat * nat * list nat * list nat * list nat * nat", rcases, chk, "rank", shard=ctx.budget(150, 400), timeout=1500)
+    bad = ctx.coq_failing("Base Perm Bitmask", "", "nat * list nat * list nat * list nat * nat", rcases, chk, "rank", shard=ctx.budget(150, 400), timeout=1500)
     for i in bad[:3]:
         ctx.violation("correspondence", "rank/unrank model differs from the numba implementation", {"coq_case": rcases[i]}, False)
     bad = ctx.coq_failing("Base Bitmask", "", "Z * nat", [f"({w}, {c}%nat)" for w, c in zip(words, pc)], "fun c => (popcount64 (fst c) =? snd c)%nat", "popcount")
